@@ -2,8 +2,8 @@
 """Regenerates MANIFEST.json from lib/props.py (claimed properties) and lib/manifest_meta.py."""
 import json, os, sys
 sys.path.insert(0, os.path.dirname(os.path.abspath(__file__)))
-from props import PROPS
-from manifest_meta import META, NOT_APPLICABLE, HOOK_COMMITS, ENGINES
+from props import PROPS, META
+from manifest_meta import NOT_APPLICABLE, HOOK_COMMITS, ENGINES
 
 ALL = ["C%02d" % i for i in range(1, 21)]
 checks = []
